@@ -82,11 +82,11 @@ theorem setCtx_J (s : State) (c : Nat) (f : Ctx → Ctx)
   · rw [setCtx_ids s c f (fun y => (hf y).2.2)]; exact h.named
 
 /-- a context update that drops the stored reply, on a state whose registrations of that context have been removed -/
-theorem reset_J (s : State) (c : Nat) (f : Ctx → Ctx) (reg' : List (Nat × Nat)) (dl : List (Nat × Nat × Nat))
+theorem reset_J (s : State) (c : Nat) (f : Ctx → Ctx) (reg' : List (Nat × Nat)) (dl : List (Nat × Nat × Nat)) (df : List Nat)
     (hf : ∀ y, (f y).repMsg = none ∧ (f y).id = y.id) (h : J s)
     (hsub : ∀ e ∈ reg', e ∈ s.ctxByID) (hno : ∀ e ∈ reg', e.2 ≠ c)
     (hd : ∀ d ∈ dl, d.2.1 = d.2.2) :
-    J (setCtx { s with ctxByID := reg', delivered := dl } c f) := by
+    J (setCtx { s with ctxByID := reg', delivered := dl, deliveredFor := df } c f) := by
   constructor
   · exact hd
   · intro y hy m hm
@@ -107,10 +107,10 @@ theorem reset_J (s : State) (c : Nat) (f : Ctx → Ctx) (reg' : List (Nat × Nat
     · rename_i hc
       simp only [hc, if_false]
       exact h.reg e (hsub e he) y0 hy0 hid
-  · show ((setCtx { s with ctxByID := reg', delivered := dl } c f).ctxs.map (·.id)).Nodup
+  · show ((setCtx { s with ctxByID := reg', delivered := dl, deliveredFor := df } c f).ctxs.map (·.id)).Nodup
     rw [setCtx_ids _ c f (fun y => (hf y).2)]; exact h.uniq
   · intro e he
-    show e.2 ∈ (setCtx { s with ctxByID := reg', delivered := dl } c f).ctxs.map (·.id)
+    show e.2 ∈ (setCtx { s with ctxByID := reg', delivered := dl, deliveredFor := df } c f).ctxs.map (·.id)
     rw [setCtx_ids _ c f (fun y => (hf y).2)]; exact h.named e (hsub e he)
 
 theorem cancelSend_J (s : State) (c : Nat) (h : J s) : J (cancelSend s c) := by
@@ -126,7 +126,7 @@ theorem cancel_J (s : State) (c : Nat) (h : J s) : J (cancel s c) := by
   · exact h1
   · rename_i x _
     exact reset_J (cancelSend s c) c (fun y => { y with reqID := 0, repMsg := none, reqMsg := none, timer := none, sendAbort := y.sendMsg.isSome })
-      ((cancelSend s c).ctxByID.filter (fun e => !(e.1 == x.reqID && x.reqID != 0) && e.2 != c)) (cancelSend s c).delivered
+      ((cancelSend s c).ctxByID.filter (fun e => !(e.1 == x.reqID && x.reqID != 0) && e.2 != c)) (cancelSend s c).delivered (cancelSend s c).deliveredFor
       (fun y => ⟨rfl, rfl⟩) h1 (fun e he => (List.mem_filter.mp he).1)
       (fun e he => by have := (List.mem_filter.mp he).2; simp at this; exact this.2) h1.deliv
 
@@ -165,7 +165,7 @@ theorem wakeSends_J (s : State) (c : Nat) (x : Ctx) (h : J s) : J (wakeSends s c
   split
   · have h2 := cancelSend_J _ c h1
     exact reset_J (cancelSend _ c) c (fun y => { y with sendMsg := none, reqID := 0, repMsg := none, sendAbort := false })
-      (s.ctxByID.filter (fun e => e.2 != c)) s.delivered (fun y => ⟨rfl, rfl⟩) h2
+      (s.ctxByID.filter (fun e => e.2 != c)) s.delivered s.deliveredFor (fun y => ⟨rfl, rfl⟩) h2
       (fun e he => (List.mem_filter.mp he).1)
       (fun e he => by have := (List.mem_filter.mp he).2; simpa using this) h.deliv
   · exact h1
@@ -191,7 +191,7 @@ theorem wakeRecv_J (s : State) (c : Nat) (np : Bool) (evs : List (Nat × Ev)) (h
             have hB := h.rep y hym m hm
             refine reset_J { s with parkedRecv := s.parkedRecv.filter (fun p => p.call != pr.call) } c
               (fun z => { z with reqID := 0, repMsg := none, receiveWait := false })
-              (s.ctxByID.filter (fun e => e.2 != c)) (s.delivered ++ [(c, beDec m.1, enc y.reqID)])
+              (s.ctxByID.filter (fun e => e.2 != c)) (s.delivered ++ [(c, beDec m.1, enc y.reqID)]) (s.deliveredFor ++ [y.reqID])
               (fun z => ⟨rfl, rfl⟩) h3 (fun e he => (List.mem_filter.mp he).1)
               (fun e he => by have := (List.mem_filter.mp he).2; simpa using this) ?_
             intro d hd
@@ -550,12 +550,12 @@ theorem core_J (s : State) (now : Nat) (op : List String) (h : J s) : ∀ r ∈ 
       · split at hr
         · simp at hr; subst hr; exact J_of_fields s _ h rfl rfl (fun e he => he)
         · -- cancel, then the new request (not registered yet, no reply stored)
-          have h0 : J { s with nsent := s.nsent + 1 } := J_of_fields s _ h rfl rfl (fun e he => he)
+          have h0 : J { s with nsent := s.nsent + 1, sent := s.sent ++ [(s.nsent + 1, bytesOf b)] } := J_of_fields s _ h rfl rfl (fun e he => he)
           have h1 := cancel_J _ c.id h0
           have hcid : c.id = natOf ctx := getCtx_id s _ c hc
-          have hc' : getCtx { s with nsent := s.nsent + 1 } c.id = some c := by rw [hcid]; exact hc
-          obtain ⟨hnone, hrepnone⟩ := cancel_clears { s with nsent := s.nsent + 1 } c.id c hc'
-          have h2 : J (setCtx { (cancel { s with nsent := s.nsent + 1 } c.id) with sendQ := (cancel { s with nsent := s.nsent + 1 } c.id).sendQ ++ [c.id] } c.id
+          have hc' : getCtx { s with nsent := s.nsent + 1, sent := s.sent ++ [(s.nsent + 1, bytesOf b)] } c.id = some c := by rw [hcid]; exact hc
+          obtain ⟨hnone, hrepnone⟩ := cancel_clears { s with nsent := s.nsent + 1, sent := s.sent ++ [(s.nsent + 1, bytesOf b)] } c.id c hc'
+          have h2 : J (setCtx { (cancel { s with nsent := s.nsent + 1, sent := s.sent ++ [(s.nsent + 1, bytesOf b)] } c.id) with sendQ := (cancel { s with nsent := s.nsent + 1, sent := s.sent ++ [(s.nsent + 1, bytesOf b)] } c.id).sendQ ++ [c.id] } c.id
               (fun y => { y with reqID := s.nsent + 1, queued := true, sendMsg := some (bytesOf b), sendFor := s.nsent + 1, sendAbort := false })) := by
             constructor
             · exact h1.deliv
